@@ -2,7 +2,7 @@
    how they arrived.  Statements only; proofs in Proofs/OrderProofs.v and
    Proofs/OrderL1D.v.
 
-   Full statement for Learner1D (NOT proved here; see C11_l1d_partial):
+   Full statement for Learner1D (NOT proved in full; see below):
 
      C11_l1d_order_irrelevant : factor P = one -> FieldLaws ... ->
        all points distinct and in bounds, both end points known or pending ->
@@ -11,18 +11,25 @@
        /\ los (tell_many s l2 true) = los (fold_left tell1 l1 s)
        /\ losc (tell_many s l2 true) = losc (fold_left tell1 l1 s)   (exact in a field)
 
-   What is proved: every data-level component (data, pending, neighbors,
-   neighbors_combined, _bbox, _scale) is order independent, for any start
-   state (any set of pending points); batch = incremental on data and pending.
-   What is missing: the two loss tables los / losc (and with them loss() and
-   ask()): needs the structural invariant "los = get_loss of every
-   neighbouring pair at the current scale" (C01_structure_inv /
-   C01_values_inv, not available in Proofs/L1DProofs.v) from which, for
-   factor = 1, the state is a function of (data, pending).  On the real class
-   this part is covered by the oracle of harness/avh/props/c11.py only. *)
+   What is proved:
+   * C11_l1d_partial: every data-level component (data, pending, neighbors,
+     neighbors_combined, _bbox, _scale) is order independent, for any start
+     state (any set of pending points), scalar or vector values;
+     C11_l1d_batch_partial: batch = incremental on data and pending.
+   * C11_l1d_losses_order_irrelevant(_Qc): for _recompute_losses_factor = 1 and
+     scalar outputs, starting from a fresh learner with ANY set of pending
+     points, the loss table `losses`, loss(real=True), _oldscale and the
+     x-scale of the loss managers do not depend on the order in which a set of
+     distinct in-bounds results is told (uses the structural invariant of
+     Proofs/L1DStruct.v and a sharpened values invariant, Proofs/OrderL1DLoss.v).
+   What is missing (`_partial`): the table losses_combined (interpolated
+   pieces), hence loss(real=False) and ask(); vector outputs for the loss
+   table; the batch path of tell_many beyond data/pending.  On the real class
+   these are covered by the oracle of harness/avh/props/c11.py and the
+   bit-exact correspondence only. *)
 From Coq Require Import Permutation ZArith QArith Qcanon.
 From AV Require Import Base.Prelude Model.AvgSpec Model.Seq Proofs.SeqProofs Proofs.OrderProofs.
-From AV Require Model.L1D Proofs.OrderL1D.
+From AV Require Model.L1D Proofs.OrderL1D Proofs.OrderL1DLoss.
 Local Open Scope nat_scope.
 
 (* ---------------- SequenceLearner ---------------- *)
@@ -120,6 +127,60 @@ Proof.
            OrderL1D.OrdLaws_Qc).
 Qed.
 
+(* ---------------- Learner1D: the loss table, factor = 1, scalar outputs ---------------- *)
+Section L1DLoss.
+  Import L1D OrderL1D OrderL1DLoss.
+  Variable num : Type.
+  Variables (add sub mul div : num -> num -> num) (ltb eqb : num -> num -> bool).
+  Variables (zero one inf neg_inf : num) (is_nan is_inf : num -> bool) (round12 : num -> num).
+  Variable Lf : list (option num) -> list (option (Y num)) -> num.
+  Variable P : params num.
+
+  Notation tell1 := (OrderL1D.tell1 num sub mul div ltb eqb zero one inf neg_inf is_nan is_inf round12 Lf P).
+  Notation tell_pending := (@L1D.tell_pending num sub mul div ltb eqb zero one inf Lf P).
+  Notation init := (@L1D.init num sub zero inf neg_inf P).
+  Notation loss := (@L1D.loss num sub div ltb eqb inf is_nan is_inf round12 P).
+
+  Theorem C11_l1d_losses_order_irrelevant :
+    OrdLaws ltb eqb is_nan -> (forall a, mul (factor P) a = a) -> ScaleLaws sub ltb zero ->
+    forall (pending : list num) (l1 l2 : list (num * Y num)),
+    NoDup (map fst l1) ->
+    Forall (good_result num ltb eqb inf neg_inf P) l1 ->       (* in bounds, scalar, finite *)
+    Permutation l1 l2 ->
+    let s0 := fold_left tell_pending pending init in
+    let t1 := fold_left tell1 l1 s0 in let t2 := fold_left tell1 l2 s0 in
+    los t1 = los t2 /\ loss t1 true = loss t2 true /\ osy t1 = osy t2 /\ mgrx t1 = mgrx t2.
+  Proof.
+    intros OL F1 SL.
+    exact (l1d_losses_scalar num add sub mul div ltb eqb zero one inf neg_inf is_nan is_inf round12 Lf P OL F1 SL).
+  Qed.
+End L1DLoss.
+
+(* closed: exact rationals, every loss function, bounds, nth_neighbors; factor 1 *)
+Theorem C11_l1d_losses_order_irrelevant_Qc :
+  forall (Lf : list (option Qc) -> list (option (L1D.Y Qc)) -> Qc) (P : L1D.params Qc)
+         (inf neg_inf : Qc) (round12 : Qc -> Qc),
+  L1D.factor P = Q2Qc 1 ->
+  forall (pending : list Qc) (l1 l2 : list (Qc * L1D.Y Qc)),
+  NoDup (map fst l1) ->
+  Forall (OrderL1DLoss.good_result Qc OrderL1D.Qc_ltb OrderL1D.Qc_eqb inf neg_inf P) l1 ->
+  Permutation l1 l2 ->
+  let tp := @L1D.tell_pending Qc Qcminus Qcmult Qcdiv OrderL1D.Qc_ltb OrderL1D.Qc_eqb (Q2Qc 0) (Q2Qc 1) inf Lf P in
+  let t := OrderL1D.tell1 Qc Qcminus Qcmult Qcdiv OrderL1D.Qc_ltb OrderL1D.Qc_eqb (Q2Qc 0) (Q2Qc 1) inf neg_inf
+             (fun _ => false) (fun _ => false) round12 Lf P in
+  let s0 := fold_left tp pending (@L1D.init Qc Qcminus (Q2Qc 0) inf neg_inf P) in
+  let loss := @L1D.loss Qc Qcminus Qcdiv OrderL1D.Qc_ltb OrderL1D.Qc_eqb inf (fun _ => false) (fun _ => false) round12 P in
+  L1D.los (fold_left t l1 s0) = L1D.los (fold_left t l2 s0) /\
+  loss (fold_left t l1 s0) true = loss (fold_left t l2 s0) true.
+Proof.
+  intros Lf P inf neg_inf round12 HF pending l1 l2 Hnd Hg HP.
+  assert (F1 : forall a, Qcmult (L1D.factor P) a = a) by (intros a; rewrite HF; ring).
+  destruct (C11_l1d_losses_order_irrelevant Qc Qcplus Qcminus Qcmult Qcdiv OrderL1D.Qc_ltb OrderL1D.Qc_eqb (Q2Qc 0) (Q2Qc 1)
+              inf neg_inf (fun _ => false) (fun _ => false) round12 Lf P
+              OrderL1D.OrdLaws_Qc F1 OrderL1DLoss.ScaleLaws_Qc pending l1 l2 Hnd Hg HP) as [H1 [H2 _]].
+  split; assumption.
+Qed.
+
 (* ---------------- non-vacuity ---------------- *)
 Example C11_seq_example :
   let l1 := [(2, 20); (0, 7); (3, 9)] in let l2 := [(3, 9); (2, 20); (0, 7)] in
@@ -165,6 +226,33 @@ Example C11_l1d_example :
   length (L1D.losc (fold_left ex_tell l1 ex_start)) = 5.
 Proof. vm_compute. repeat split. Qed.
 
+(* the hypotheses of the loss-table theorem are satisfiable: the result set of
+   C11_l1d_example (with the pending points 0, 64, 40) meets them, so its
+   conclusion follows from the theorem rather than from computation *)
+Example C11_l1d_losses_example :
+  let l1 := [(16, L1D.YS 3); (48, L1D.YS (-5)); (32, L1D.YS 8); (64, L1D.YS 1)]%Z in
+  let l2 := [(64, L1D.YS 1); (32, L1D.YS 8); (16, L1D.YS 3); (48, L1D.YS (-5))]%Z in
+  NoDup (map fst l1) /\
+  Forall (OrderL1DLoss.good_result Z Z.ltb Z.eqb 1000000%Z (-1000000)%Z ex_P) l1 /\
+  L1D.los (fold_left ex_tell l1 ex_start) = L1D.los (fold_left ex_tell l2 ex_start).
+Proof.
+  cbn zeta.
+  assert (Hnd : NoDup (map fst [(16, L1D.YS 3); (48, L1D.YS (-5)); (32, L1D.YS 8); (64, L1D.YS 1)]%Z)).
+  { cbn. repeat constructor; cbn; intuition discriminate. }
+  assert (Hg : Forall (OrderL1DLoss.good_result Z Z.ltb Z.eqb 1000000%Z (-1000000)%Z ex_P)
+                 [(16, L1D.YS 3); (48, L1D.YS (-5)); (32, L1D.YS 8); (64, L1D.YS 1)]%Z).
+  { repeat constructor; cbn; eexists; (split; [reflexivity|split; reflexivity]). }
+  split; [exact Hnd|]. split; [exact Hg|].
+  assert (HP : Permutation [(16, L1D.YS 3); (48, L1D.YS (-5)); (32, L1D.YS 8); (64, L1D.YS 1)]%Z
+                           [(64, L1D.YS 1); (32, L1D.YS 8); (16, L1D.YS 3); (48, L1D.YS (-5))]%Z).
+  { apply Permutation_sym. apply (Permutation_cons_app [(16, L1D.YS 3); (48, L1D.YS (-5)); (32, L1D.YS 8)]%Z nil).
+    rewrite app_nil_r. apply (Permutation_cons_app [(16, L1D.YS 3); (48, L1D.YS (-5))]%Z nil). rewrite app_nil_r.
+    apply Permutation_refl. }
+  exact (proj1 (C11_l1d_losses_order_irrelevant Z Z.add Z.sub Z.mul Z.div Z.ltb Z.eqb 0%Z 1%Z 1000000%Z (-1000000)%Z
+           (fun _ => false) (fun _ => false) (fun x => x) ex_L ex_P OrderL1D.OrdLaws_Z (fun a => Z.mul_1_l a)
+           OrderL1DLoss.ScaleLaws_Z [0; 64; 40]%Z _ _ Hnd Hg HP)).
+Qed.
+
 Print Assumptions C11_seq_order_irrelevant.
 Print Assumptions C11_avg_order_irrelevant.
 Print Assumptions C11_avg_order_irrelevant_Z.
@@ -174,3 +262,5 @@ Print Assumptions C11_avg_state_function_of_data.
 Print Assumptions C11_l1d_partial.
 Print Assumptions C11_l1d_batch_partial.
 Print Assumptions C11_l1d_partial_Qc.
+Print Assumptions C11_l1d_losses_order_irrelevant.
+Print Assumptions C11_l1d_losses_order_irrelevant_Qc.
